@@ -56,7 +56,7 @@ def run(ck):
         if not ok1:
             continue
         me = outs[0].env.get("self")
-        perm = me.fields.get("permeances") if isinstance(me, ObjV) else None
+        perm = famify(me.fields.get("permeances")) if isinstance(me, ObjV) else None
         if not (isinstance(perm, ListV) and perm.kind == "fam" and isinstance(perm.elem, TupV) and len(perm.elem.items) == 2):
             sck.ob("V1", post.qualname, "permeances computed per curve point as a pair", post.loc(), False, found=repr(perm)[:200])
             continue
@@ -100,7 +100,7 @@ def run(ck):
             continue
         n += 1
         me = outs[0].env.get("self")
-        perm = me.fields.get("permeances")
+        perm = famify(me.fields.get("permeances"))
         ok = isinstance(perm, ListV) and perm.kind == "fam" and isinstance(perm.elem, TupV) and len(perm.elem.items) == 2
         sck.ob("V3", post.qualname, "permeances re-built per curve point", post.loc(), ok, found=repr(perm)[:200])
         if not ok:
@@ -118,7 +118,7 @@ def run(ck):
                    got is not None and wv is not None and got == wv, expected=lambda: str(wv), found=lambda: str(got))
             vals.append(got)
         if fl == "none":
-            fluxes = me.fields.get("partial_fluxes")
+            fluxes = famify(me.fields.get("partial_fluxes"))
             okf = isinstance(fluxes, ListV) and fluxes.kind == "fam" and isinstance(fluxes.elem, TupV) and len(fluxes.elem.items) == 2
             sck.ob("V2", post.qualname, "fluxes computed per curve point", post.loc(), okf, found=repr(fluxes)[:200])
             if okf:
